@@ -175,7 +175,7 @@ def corr(ctx):
     dirs = DIRS if not ctx.quick else DIRS
     for d in dirs:
         nd = posixpath.normpath(d)
-        sub = allu if (d in ("/srv/t", ".", "/")) or not ctx.quick else allu[:: 7]
+        sub = allu if d in ("/srv/t", ".", "/") else allu[:: 7]
         outs = drv.ask_many(["path src %s %s" % (enc(nd), enc(u)) for u in sub])
         for u, o in zip(sub, outs):
             st["cases"] += 1
@@ -198,7 +198,7 @@ def corr(ctx):
     st = ctx.stream("corr.template_check_modpath")
     # Template(uri='') takes the no-uri branch (module id and uri derived from the file name); the lookup never
     # constructs a Template for the empty uri (no file can match it), so it is outside this stream
-    sub = [u for u in (allu if not ctx.quick else (uris[:: 5] + rnd[:: 5])) if u]
+    sub = [u for u in ((uris[:: 3] + rnd[:: 3]) if not ctx.quick else (uris[:: 5] + rnd[:: 5])) if u]
     mods = ["/var/mods", "mods/", "/var/./mods/../mods"]
     accepted = rejected = 0
     for m in mods:
